@@ -137,9 +137,9 @@ fn replay(rf: &ReplayFile) -> Vec<(String, String)> {
                 .map(|v| (v.clause.to_string(), v.detail))
                 .collect()
         }
-        Case::Decode { suite, kind, codec, bytes, expect, .. } => {
+        Case::Decode { suite, kind, codec, bytes, expect, note } => {
             let r = match expect.as_str() {
-                "canonical" => checks::c10::replay_decode(suite, *kind, &bytes.0),
+                "canonical" => checks::c10::replay_decode(suite, *kind, &bytes.0, note),
                 "reject" => checks::c11::replay_decode(suite, *kind, *codec, &bytes.0),
                 "nopanic" => checks::c12::replay_decode(suite, *kind, *codec, &bytes.0, rf.seed),
                 _ => None,
